@@ -307,24 +307,34 @@ func runC03(c *Ctx, r *Report) {
 func c03FileAdd(c *Ctx, r *Report, fd *ast.FuncDecl, fileSt *types.Struct) {
 	info := c.fit.TypesInfo
 	pos := c.pos(fd.Pos())
-	if len(fd.Body.List) != 2 {
-		r.undecided("C03-3-fileadd", "File.add/shape", pos, "body is not `x := msg.Interface(); switch tmp := x.(type)`")
+	if len(fd.Body.List) != 2 && len(fd.Body.List) != 1 {
+		r.undecided("C03-3-fileadd", "File.add/shape", pos, "body is not `[x := msg.Interface();] switch tmp := x.(type)`")
 		return
 	}
 	recv := info.Defs[fd.Recv.List[0].Names[0]]
 	param := info.Defs[fd.Type.Params.List[0].Names[0]]
-	ts, ok := fd.Body.List[1].(*ast.TypeSwitchStmt)
+	ts, ok := fd.Body.List[len(fd.Body.List)-1].(*ast.TypeSwitchStmt)
 	if !ok {
 		r.undecided("C03-3-fileadd", "File.add/shape", pos, "no type switch")
 		return
 	}
-	as, ok := fd.Body.List[0].(*ast.AssignStmt)
-	if !ok || len(as.Rhs) != 1 {
-		r.undecided("C03-3-fileadd", "File.add/shape", pos, "first statement")
-		return
+	// the switched value is msg.Interface(): either bound first (`x := msg.Interface(); switch tmp := x.(type)`)
+	// or in place (`switch tmp := msg.Interface().(type)`)
+	var ifaceExpr ast.Expr
+	if len(fd.Body.List) == 2 {
+		as, ok := fd.Body.List[0].(*ast.AssignStmt)
+		if !ok || len(as.Rhs) != 1 {
+			r.undecided("C03-3-fileadd", "File.add/shape", pos, "first statement")
+			return
+		}
+		ifaceExpr = as.Rhs[0]
+	} else if tas, ok := ts.Assign.(*ast.AssignStmt); ok && len(tas.Rhs) == 1 && ts.Init == nil {
+		if ta, ok := tas.Rhs[0].(*ast.TypeAssertExpr); ok {
+			ifaceExpr = ta.X
+		}
 	}
-	if call, ok := as.Rhs[0].(*ast.CallExpr); !ok || !isMethod(callee(info, call), "reflect", "Value", "Interface") {
-		r.undecided("C03-3-fileadd", "File.add/shape", pos, "first statement is not msg.Interface()")
+	if call, ok := unparen(ifaceExpr).(*ast.CallExpr); ifaceExpr == nil || !ok || !isMethod(callee(info, call), "reflect", "Value", "Interface") {
+		r.undecided("C03-3-fileadd", "File.add/shape", pos, "the switched value is not msg.Interface()")
 		return
 	}
 	fields := map[string]*types.Var{}
